@@ -124,7 +124,7 @@ Proof. exact @ascii_current_multi_bin. Qed.
 Print Assumptions C11_ascii_current_multi_bin.
 
 (* configuration YAML; gen = the edge generator, a function of (cosmology, method, zmin, zmax,
-   num_bins) only.  Hypothesis: gen returns num_bins+1 edges that start at zmin and end at zmax
+   num_bins) only.  Assumed: gen returns num_bins+1 edges that start at zmin and end at zmax
    on the parameters of the configuration (endpoints_exact_at). *)
 Theorem C11_config_roundtrip_at : forall (E C Sc : Type) (gen : C -> bmethod -> E -> E -> nat -> list E) (dflt : E)
   (s : Sc) cosmo m a b n cl wk,
